@@ -161,7 +161,8 @@ def py_value(rng, kind):
             vals[rng.randrange(n)] = rng.choice([-1, -b - 1, -b])
         return vals
     if kind == "floatarray":
-        return [rng.choice([0.5, -1.25, 1e-5, 3.0, rng.uniform(-10, 10)]) for _ in range(rng.randint(1, 4))]
+        return [rng.choice([0.5, -1.25, 1e-5, 3.0, rng.uniform(-10, 10), 1e16, -1e20, 1.5e300, 2.5e-7, 1e-300,
+                            -0.0, 123456789.125, float(rng.randint(-5, 5))]) for _ in range(rng.randint(1, 4))]
     if kind == "bytes":
         return [rng.randint(0, 255) for _ in range(rng.randint(1, 6))]
     raise ValueError(kind)
